@@ -111,7 +111,6 @@ Proof. intros H; apply (step_out_spec x H). Qed.
 
 (* ---- readLocalSymbolTable --------------------------------------------------------------------------------- *)
 Section Lst.
-Variable kp : forall A : Type, res A.
 Variable api_next : xstate -> xstate * res bool.
 Hypothesis Hnext : forall x, sticky_inv x -> sticky_inv (fst (api_next x)).
 
@@ -138,7 +137,7 @@ Proof.
 Qed.
 
 Lemma read_import_loop_inv fuel : forall x d,
-  sticky_inv x -> sticky_inv (fst (read_import_loop kp api_next fuel x d)).
+  sticky_inv x -> sticky_inv (fst (read_import_loop api_next fuel x d)).
 Proof.
   induction fuel as [|f IH]; intros x d H; cbn [read_import_loop]; [exact H|].
   next_cases x1 r. destruct r as [[|]| | |]; cbn [fst]; auto.
@@ -149,42 +148,42 @@ Proof.
          | |- sticky_inv (fst (match ?v with _ => _ end)) => destruct v
          end; cbn [fst]; auto.
 Qed.
-Lemma read_import_inv fuel x : sticky_inv x -> sticky_inv (fst (read_import kp api_next fuel x)).
+Lemma read_import_inv fuel x : sticky_inv x -> sticky_inv (fst (read_import api_next fuel x)).
 Proof.
   intros H; unfold read_import. destruct (negb (x_type x =? TStruct) || x_is_null x); [exact H|].
   pose proof (step_in_inv x H) as H1. destruct (x_step_in x) as [x1 [[|]| | |]]; cbn [fst] in *; auto.
-  match goal with |- context [read_import_loop kp api_next fuel x1 ?d] =>
+  match goal with |- context [read_import_loop api_next fuel x1 ?d] =>
     pose proof (read_import_loop_inv fuel x1 d H1) as H2;
-    destruct (read_import_loop kp api_next fuel x1 d) as [x2 [dd| | |]] end; cbn [fst] in *; auto.
+    destruct (read_import_loop api_next fuel x1 d) as [x2 [dd| | |]] end; cbn [fst] in *; auto.
   pose proof (step_out_inv x2 H2) as H3. destruct (x_step_out x2) as [x3 [[|]| | |]]; cbn [fst] in *; auto.
   repeat match goal with |- sticky_inv (fst (if ?b then _ else _)) => destruct b end; cbn [fst]; auto.
 Qed.
 Lemma read_imports_loop_inv fuel : forall x acc,
-  sticky_inv x -> sticky_inv (fst (read_imports_loop kp api_next fuel x acc)).
+  sticky_inv x -> sticky_inv (fst (read_imports_loop api_next fuel x acc)).
 Proof.
   induction fuel as [|f IH]; intros x acc H; cbn [read_imports_loop]; [exact H|].
   next_cases x1 r. destruct r as [[|]| | |]; cbn [fst]; auto.
   pose proof (read_import_inv (S f) x1 (Hn H)) as H2.
-  destruct (read_import kp api_next (S f) x1) as [x2 [[i|]| | |]]; cbn [fst] in *; auto.
+  destruct (read_import api_next (S f) x1) as [x2 [[i|]| | |]]; cbn [fst] in *; auto.
 Qed.
-Lemma read_imports_inv fuel x : sticky_inv x -> sticky_inv (fst (read_imports kp api_next fuel x)).
+Lemma read_imports_inv fuel x : sticky_inv x -> sticky_inv (fst (read_imports api_next fuel x)).
 Proof.
   intros H; unfold read_imports.
   match goal with |- sticky_inv (fst (match ?c with _ => _ end)) => assert (Hc : forall r, c = Some r -> sticky_inv (fst r)) end.
   { intros r. destruct (x_type x =? TSymbol); [|discriminate].
     destruct (x_err x); [intros E; injection E as <-; exact H|].
-    destruct (x_value x); try (intros E; injection E as <-; exact H).
-    destruct (tk_sid t =? 3)%Z; [|discriminate].
+    destruct (x_value x) as [| | | | | | |tk| | |]; try discriminate.
+    destruct (tk_sid tk =? 3)%Z; [|discriminate].
     destruct (x_lst x); intros E; injection E as <-; exact H. }
   match goal with |- sticky_inv (fst (match ?c with _ => _ end)) => destruct c as [r|] end; [apply Hc; reflexivity|].
   destruct (negb (x_type x =? TList) || x_is_null x); [exact H|].
   pose proof (step_in_inv x H) as H1. destruct (x_step_in x) as [x1 [[|]| | |]]; cbn [fst] in *; auto.
   pose proof (read_imports_loop_inv fuel x1 [] H1) as H2.
-  destruct (read_imports_loop kp api_next fuel x1 []) as [x2 [im| | |]]; cbn [fst] in *; auto.
+  destruct (read_imports_loop api_next fuel x1 []) as [x2 [im| | |]]; cbn [fst] in *; auto.
   pose proof (step_out_inv x2 H2) as H3. destruct (x_step_out x2) as [x3 [[|]| | |]]; cbn [fst] in *; auto.
 Qed.
 Lemma read_lst_loop_inv fuel : forall x imps syms fi fs,
-  sticky_inv x -> sticky_inv (fst (read_lst_loop kp api_next fuel x imps syms fi fs)).
+  sticky_inv x -> sticky_inv (fst (read_lst_loop api_next fuel x imps syms fi fs)).
 Proof.
   induction fuel as [|f IH]; intros x imps syms fi fs H; cbn [read_lst_loop]; [exact H|].
   next_cases x1 r. destruct r as [[|]| | |]; cbn [fst]; auto.
@@ -197,19 +196,19 @@ Proof.
   - destruct (list_eqb fnm (s "imports")); auto.
     destruct fi; cbn [fst]; auto.
     pose proof (read_imports_inv (S f) x1 (Hn H)) as H2.
-    destruct (read_imports kp api_next (S f) x1) as [x2 [im| | |]]; cbn [fst] in *; auto.
+    destruct (read_imports api_next (S f) x1) as [x2 [im| | |]]; cbn [fst] in *; auto.
 Qed.
 Lemma read_lst_spec fuel x :
   sticky_inv x ->
-  sticky_inv (fst (read_local_symbol_table kp api_next fuel x)) /\
-  (is_ok (snd (read_local_symbol_table kp api_next fuel x)) = true ->
-   x_err (fst (read_local_symbol_table kp api_next fuel x)) = false).
+  sticky_inv (fst (read_local_symbol_table api_next fuel x)) /\
+  (is_ok (snd (read_local_symbol_table api_next fuel x)) = true ->
+   x_err (fst (read_local_symbol_table api_next fuel x)) = false).
 Proof.
   intros H; unfold read_local_symbol_table.
   pose proof (step_in_inv x H) as H1. destruct (x_step_in x) as [x1 [[|]| | |]]; cbn [fst snd] in *;
     try (split; [auto|discriminate]).
   pose proof (read_lst_loop_inv fuel x1 [] [] false false H1) as H2.
-  destruct (read_lst_loop kp api_next fuel x1 [] [] false false) as [x2 [[im sy]| | |]]; cbn [fst snd] in *;
+  destruct (read_lst_loop api_next fuel x1 [] [] false false) as [x2 [[im sy]| | |]]; cbn [fst snd] in *;
     try (split; [auto|discriminate]).
   pose proof (step_out_spec x2 H2) as [H3 H4].
   destruct (x_step_out x2) as [x3 [[|]| | |]]; cbn [fst snd] in *; try (split; [auto|discriminate]).
@@ -238,17 +237,16 @@ Qed.
 Section Next.
 Variable pd : list N -> res dec.
 Variable pt : list N -> res (list N).
-Variable kp : forall A : Type, res A.
 Variable api_next : xstate -> xstate * res bool.
 Hypothesis Hnext : forall x, sticky_inv x -> sticky_inv (fst (api_next x)).
 
-Lemma good_read_lst fuel : good (read_local_symbol_table kp api_next fuel).
+Lemma good_read_lst fuel : good (read_local_symbol_table api_next fuel).
 Proof.
-  intros x E. pose proof (read_lst_spec kp api_next Hnext fuel x (or_introl E)) as [H1 H2].
-  destruct (read_local_symbol_table kp api_next fuel x) as [x' [st| | |]]; cbn [fst snd is_ok] in *; auto.
+  intros x E. pose proof (read_lst_spec api_next Hnext fuel x (or_introl E)) as [H1 H2].
+  destruct (read_local_symbol_table api_next fuel x) as [x' [st| | |]]; cbn [fst snd is_ok] in *; auto.
 Qed.
 
-Lemma good_nbta fuel : good (next_before_type_annotations pd pt kp api_next fuel).
+Lemma good_nbta fuel : good (next_before_type_annotations pd pt api_next fuel).
 Proof.
   unfold next_before_type_annotations.
   apply good_bind; [apply good_of_errpres; ep|intros x0].
@@ -267,7 +265,7 @@ Proof.
 Qed.
 
 Lemma next_loop_inv fuel : forall k x,
-  x_err x = false -> sticky_inv (fst (x_next_loop pd pt kp api_next k fuel x)).
+  x_err x = false -> sticky_inv (fst (x_next_loop pd pt api_next k fuel x)).
 Proof.
   induction k as [|k IH]; intros x E; cbn [x_next_loop]; [left; exact E|].
   pose proof (errpres_lift t_next x) as H1.
@@ -286,7 +284,7 @@ Proof.
   - right; reflexivity.
 Qed.
 
-Lemma next_with_inv fuel x : sticky_inv x -> sticky_inv (fst (x_next_with pd pt kp api_next fuel x)).
+Lemma next_with_inv fuel x : sticky_inv x -> sticky_inv (fst (x_next_with pd pt api_next fuel x)).
 Proof.
   intros H; unfold x_next_with.
   destruct ((x_state x =? trsDone) || x_eof x) eqn:B; [exact H|].
@@ -302,23 +300,22 @@ End Next.
 Section Api.
 Variable pd : list N -> res dec.
 Variable pt : list N -> res (list N).
-Variable kp : forall A : Type, res A.
 
-Lemma next_inner_inv x : sticky_inv x -> sticky_inv (fst (x_next_inner pd pt kp x)).
+Lemma next_inner_inv x : sticky_inv x -> sticky_inv (fst (x_next_inner pd pt x)).
 Proof. intros H; unfold x_next_inner; apply next_with_inv; [intros x0 H0; exact H0|exact H]. Qed.
-Lemma next_inv x : sticky_inv x -> sticky_inv (fst (x_next pd pt kp x)).
+Lemma next_inv x : sticky_inv x -> sticky_inv (fst (x_next pd pt x)).
 Proof. intros H; unfold x_next; apply next_with_inv; [apply next_inner_inv|exact H]. Qed.
 
 Lemma init_inv inp ioerr : sticky_inv (x_init inp ioerr).
 Proof. left; reflexivity. Qed.
 
-Lemma op_inv x o : sticky_inv x -> sticky_inv (fst (x_op_res pd pt kp x o)).
+Lemma op_inv x o : sticky_inv x -> sticky_inv (fst (x_op_res pd pt x o)).
 Proof.
   intros H; destruct o; cbn [x_op_res];
     repeat match goal with
            | |- sticky_inv (fst (if ?b then _ else _)) => destruct b
            end; cbn [fst]; auto.
-  - pose proof (next_inv x H) as H1. destruct (x_next pd pt kp x) as [x1 [b| | |]]; cbn [fst] in *; auto.
+  - pose proof (next_inv x H) as H1. destruct (x_next pd pt x) as [x1 [b| | |]]; cbn [fst] in *; auto.
   - pose proof (step_in_inv x H) as H1. destruct (x_step_in x) as [x1 [b| | |]]; cbn [fst] in *; auto.
   - pose proof (step_out_inv x H) as H1. destruct (x_step_out x) as [x1 [b| | |]]; cbn [fst] in *; auto.
   - repeat match goal with
@@ -334,12 +331,12 @@ Qed.
 (* once the error is set, no call changes the reader, Next answers F and Err answers e1 *)
 Lemma op_after_error x o :
   sticky_inv x -> x_err x = true ->
-  fst (x_op_res pd pt kp x o) = x /\
-  (o = ONext -> snd (x_op_res pd pt kp x o) = Ok [70]) /\
-  (o = OErr -> snd (x_op_res pd pt kp x o) = Ok [101; 49]).
+  fst (x_op_res pd pt x o) = x /\
+  (o = ONext -> snd (x_op_res pd pt x o) = Ok [70]) /\
+  (o = OErr -> snd (x_op_res pd pt x o) = Ok [101; 49]).
 Proof.
   intros [E|D] Et; [congruence|].
-  assert (Hn : x_next pd pt kp x = (x, Ok false)).
+  assert (Hn : x_next pd pt x = (x, Ok false)).
   { unfold x_next, x_next_with. rewrite D. reflexivity. }
   assert (Hi : x_step_in x = (x, Ok false)) by (unfold x_step_in; rewrite Et; reflexivity).
   assert (Ho : x_step_out x = (x, Ok false)) by (unfold x_step_out; rewrite Et; reflexivity).
@@ -351,26 +348,25 @@ Proof.
            end; reflexivity.
 Qed.
 
-Lemma run_inv : forall p x acc, sticky_inv x -> sticky_inv (fst (x_run pd pt kp x p acc)).
+Lemma run_inv : forall p x acc, sticky_inv x -> sticky_inv (fst (x_run pd pt x p acc)).
 Proof.
   induction p as [|o p IH]; intros x acc H; cbn [x_run]; [exact H|].
   pose proof (op_inv x o H) as H1.
-  destruct (x_op_res pd pt kp x o) as [x1 [t| | |]]; cbn [fst] in *; auto.
+  destruct (x_op_res pd pt x o) as [x1 [t| | |]]; cbn [fst] in *; auto.
 Qed.
 End Api.
 
 Section Run.
 Variable pd : list N -> res dec.
 Variable pt : list N -> res (list N).
-Variable kp : forall A : Type, res A.
 Lemma sticky_after_run inp ioerr p o :
-  let x := fst (x_run pd pt kp (x_init inp ioerr) p []) in
+  let x := fst (x_run pd pt (x_init inp ioerr) p []) in
   x_err x = true ->
-  x_err (fst (x_op_res pd pt kp x o)) = true /\
-  (o = ONext -> snd (x_op_res pd pt kp x o) = Ok [70]).
+  x_err (fst (x_op_res pd pt x o)) = true /\
+  (o = ONext -> snd (x_op_res pd pt x o) = Ok [70]).
 Proof.
   intros x E.
-  destruct (op_after_error pd pt kp x o (run_inv pd pt kp p _ [] (init_inv inp ioerr)) E) as [H1 [H2 _]].
+  destruct (op_after_error pd pt x o (run_inv pd pt p _ [] (init_inv inp ioerr)) E) as [H1 [H2 _]].
   split; [rewrite H1; exact E|exact H2].
 Qed.
 End Run.
